@@ -274,7 +274,7 @@ impl<S: HasComponent<Component>> Condition<S> for IfOdd {
 
     fn evaluate(input: &mut vm::ExpansionInput<S>) -> txl::Result<bool> {
         let n = i32::parse(input)?;
-        Ok((n % 2) == 1)
+        Ok((n % 2) != 0)
     }
 }
 
